@@ -100,6 +100,10 @@ fn programs(entry: Entry) -> Vec<(&'static str, Vec<Op>)> {
         v.push(("join_future_dropped_while_panicking", vec![call(1), Op::JoinPark { slot: 1, polls: 1 }, Op::DropPanicking { slot: 2 }, Op::Sleep(20), Op::Ping { slot: 0, cancel: None }, call(0), Op::Stop { slot: 0 }, Op::Await { slot: 0, by_ref: true }, Op::Join { slot: 1, cancel: None }]));
         // a pending join future, then detach: returns, actor keeps running
         v.push(("join_parked_then_detach", vec![call(1), Op::JoinPark { slot: 1, polls: 1 }, Op::Detach { slot: 1 }, Op::Ping { slot: 3, cancel: None }, Op::Stop { slot: 3 }, Op::Await { slot: 3, by_ref: false }]));
+        // a join future created before the detach outlives the OwningAddr: awaited after the actor was stopped through
+        // the detached address it still yields the actor (the handle was never joined), whether or not it had been polled
+        v.push(("join_unpolled_then_detach_then_join", vec![call(1), Op::JoinPark { slot: 1, polls: 0 }, Op::Detach { slot: 1 }, Op::Ping { slot: 3, cancel: None }, Op::Stop { slot: 3 }, Op::Join { slot: 2, cancel: None }]));
+        v.push(("join_polled_then_detach_then_join", vec![call(1), Op::JoinPark { slot: 1, polls: 1 }, Op::Detach { slot: 1 }, Op::Ping { slot: 3, cancel: None }, Op::Stop { slot: 3 }, Op::Join { slot: 2, cancel: None }]));
     } else {
         v.push(("drop_everything", vec![call(0), Op::Downgrade { slot: 0 }, Op::Drop { slot: 0 }, Op::AwaitLog { tag: 1, what: 0, count: 1 }, Op::Upgrade { slot: 2 }]));
     }
